@@ -40,7 +40,7 @@ func nopObj(kind, val string) map[string]any {
 // answered 422 Invalid, "no matches for kind" (the kind is not served), 403 or 503.
 func rejectAs(class string) sim.AdmitFunc {
 	return func(w *sim.World, req *sim.AdmitRequest) error {
-		if req.Key.Kind != "NopInvalid" || req.Operation == "DELETE" {
+		if (req.Key.Kind != "NopInvalid" && sim.Str(req.New, "spec", "forProvider", "v") != "invalid") || req.Operation == "DELETE" {
 			return nil
 		}
 		switch class {
@@ -57,7 +57,7 @@ func rejectAs(class string) sim.AdmitFunc {
 
 // rejectInvalid is the scripted admission: objects of kind NopInvalid are rejected with 422.
 func rejectInvalid(_ *sim.World, req *sim.AdmitRequest) error {
-	if req.Key.Kind == "NopInvalid" && req.Operation != "DELETE" {
+	if (req.Key.Kind == "NopInvalid" || sim.Str(req.New, "spec", "forProvider", "v") == "invalid") && req.Operation != "DELETE" {
 		return kerrors.NewInvalid(schema.GroupKind{Group: req.Key.Group, Kind: req.Key.Kind}, req.Key.Name,
 			field.ErrorList{field.Invalid(field.NewPath("spec", "forProvider"), "x", "scripted admission: invalid resource")})
 	}
@@ -98,6 +98,10 @@ type pipeCase struct {
 	// RejectAs: the error class the API server answers the apply of an "invalid" resource with:
 	// "" = 422 Invalid | notserved (no matches for kind) | forbidden | unavailable
 	RejectAs string `json:"rejectAs,omitempty"`
+	// InvalidLater: the "invalid" resources are composed fine by the first reconcile; from the
+	// second on the function asks for a value of theirs that the API server rejects, reconcile
+	// after reconcile (the same reconciler, the same desired state, the same answer)
+	InvalidLater bool `json:"invalidFromSecondReconcile,omitempty"`
 }
 
 type worker struct {
@@ -146,11 +150,14 @@ func (w *worker) program(step int, req *fnv1.RunFunctionRequest) (*fnv1.RunFunct
 	fatalHere := (p.Fatal == "second-reconcile-step0" && rec >= 1 && step == 0) || (p.Fatal == "second-reconcile-step1" && rec >= 1 && step == 1)
 	if step == 0 {
 		for i := range p.Ready {
-			kind := "NopA"
-			if p.Invalid[i] {
+			kind, val := "NopA", fmt.Sprint(i)
+			switch {
+			case p.Invalid[i] && !p.InvalidLater:
 				kind = "NopInvalid"
+			case p.Invalid[i] && rec >= 1:
+				val = "invalid"
 			}
-			s, err := structpb.NewStruct(nopObj(kind, fmt.Sprint(i)))
+			s, err := structpb.NewStruct(nopObj(kind, val))
 			if err != nil {
 				return nil, err
 			}
@@ -302,14 +309,22 @@ func (w *worker) runPipe(i int, p pipeCase, name string) {
 	wit := func() any {
 		return map[string]any{"case": p, "xr_status": world.GetObj(xrKey)["status"], "events": env.Rec.Events(0)}
 	}
-	for rec := 0; rec < 3; rec++ {
+	nrec := 3
+	if p.InvalidLater {
+		nrec = 5
+	}
+	for rec := 0; rec < nrec; rec++ {
 		w.mu.Lock()
 		w.rec = rec
 		w.mu.Unlock()
 		_, _, _ = env.Reconcile("xr1")
 		xr := world.GetObj(xrKey)
 		fatalNow := p.Fatal != "" && rec >= 1
-		checkSystemConditions(c, name, "pipeline", xr, mayBeReady && !fatalNow || (fatalNow && mayBeReady), !anyInvalid && !fatalNow, wit)
+		invalidNow := anyInvalid && (!p.InvalidLater || rec >= 1)
+		checkSystemConditions(c, name, "pipeline", xr, mayBeReady && !fatalNow || (fatalNow && mayBeReady), !invalidNow && !fatalNow, wit)
+		if p.InvalidLater && rec >= 1 {
+			c.Count("reconciles_repeating_a_rejected_update", 1)
+		}
 		if fatalNow {
 			// custom conditions asserted in reconcile 0 and not re-asserted now must be Unknown
 			for _, cd := range p.Conds {
@@ -568,6 +583,7 @@ func main() {
 	c.Rule += " P&T readiness: every template carries a list of 1-3 readiness checks drawn from all seven types with a known verdict; an unready one has exactly one failing check at a random position."
 	c.Rule += " " + "A rejected apply is answered 422, no-matches-for-kind, 403 or 503."
 	c.Rule += " " + "P&T templates referencing a PatchSet, provider-reported Ready=True on composed resources, Required combine patches; functions forging conditions through the desired XR status combined with a failing connection publish."
+	c.Rule += " " + "Resources composed fine at first whose update is rejected from the second reconcile on, four times in a row by the same reconciler."
 	c.Assumptions = []string{"sim admission returns 422 Invalid for kind NopInvalid", "functions are scripted gRPC servers"}
 	c.Floor = 100
 	c.Exhaustive(true)
@@ -605,6 +621,17 @@ func main() {
 					}
 				}
 			}
+		}
+	}
+	for k, n := 0, len(pipes); k < n; k++ {
+		any := false
+		for _, b := range pipes[k].Invalid {
+			any = any || b
+		}
+		if any && pipes[k].Fatal == "" && !pipes[k].PublishFail && k%3 == 0 {
+			q := pipes[k]
+			q.InvalidLater = true
+			pipes = append(pipes, q)
 		}
 	}
 	var pts []ptCase
